@@ -190,10 +190,14 @@ func c13IsSidecar(c *corev1.Container) bool {
 }
 
 // c13PodRequest is the pod's effective request of one resource as Kubernetes defines it (what the
-// scheduler reserves): max(sum of containers + sidecars, every init phase) + overhead.
-func c13PodRequest(pod *corev1.Pod, name corev1.ResourceName) *big.Rat {
+// scheduler reserves): max(sum of containers + sidecars, every init phase) + overhead. conv is
+// applied to every single entry before the arithmetic (nil = exact).
+func c13PodRequestConv(pod *corev1.Pod, name corev1.ResourceName, conv func(*big.Rat) *big.Rat) *big.Rat {
 	get := func(l corev1.ResourceList) *big.Rat {
 		if q, ok := l[name]; ok {
+			if conv != nil {
+				return conv(c13Rat(q))
+			}
 			return c13Rat(q)
 		}
 		return new(big.Rat)
@@ -228,6 +232,47 @@ func c13PodRequest(pod *corev1.Pod, name corev1.ResourceName) *big.Rat {
 	return total
 }
 
+func c13PodRequest(pod *corev1.Pod, name corev1.ResourceName) *big.Rat {
+	return c13PodRequestConv(pod, name, nil)
+}
+
+// c13CeilMilli: the canonical milli-core amount of a CPU quantity (Kubernetes' CPU resolution is
+// 1m; finer quantities count as the next milli-core).
+func c13CeilMilli(v *big.Rat) *big.Int {
+	m := new(big.Rat).Mul(v, new(big.Rat).SetInt64(1000))
+	q, rem := new(big.Int).DivMod(m.Num(), m.Denom(), new(big.Int))
+	if rem.Sign() != 0 {
+		q.Add(q, big.NewInt(1))
+	}
+	return q
+}
+
+// c13WholeCPU classifies the pod's CPU request: "zero", "whole" (exactly a whole number),
+// "whole-in-milli" (a whole number only in Kubernetes' milli-core resolution: either the pod total
+// rounded up to 1m, or the sum of the per-container amounts each rounded up to 1m, is a multiple
+// of 1000m), "sub-milli" / "fractional" (not whole under any of these readings).
+func c13WholeCPU(pod *corev1.Pod) string {
+	exact := c13PodRequest(pod, corev1.ResourceCPU)
+	if exact.Sign() <= 0 {
+		return "zero"
+	}
+	if exact.IsInt() {
+		return "whole"
+	}
+	thousand := big.NewInt(1000)
+	if new(big.Int).Mod(c13CeilMilli(exact), thousand).Sign() == 0 {
+		return "whole-in-milli"
+	}
+	perEntry := c13PodRequestConv(pod, corev1.ResourceCPU, func(v *big.Rat) *big.Rat { return new(big.Rat).SetInt(c13CeilMilli(v)) })
+	if perEntry.IsInt() && new(big.Int).Mod(perEntry.Num(), thousand).Sign() == 0 {
+		return "whole-in-milli"
+	}
+	if !new(big.Rat).Mul(exact, new(big.Rat).SetInt64(1000)).IsInt() {
+		return "sub-milli"
+	}
+	return "fractional"
+}
+
 // c13RequestsBatch: some container or init container requests a non-zero amount of a reclaimed
 // (batch) resource.
 func c13RequestsBatch(pod *corev1.Pod) bool {
@@ -260,12 +305,14 @@ func c13Protocol(newPod, oldPod *corev1.Pod, readingB bool) []string {
 	if qos == "LSR" && pc != "koord-prod" {
 		broken = append(broken, "lsr-pair")
 	}
-	// LSR/LSE pods request a whole number of CPUs (> 0)
+	// LSR/LSE pods request a whole number of CPUs (> 0). CPU amounts are taken in Kubernetes'
+	// resolution of one milli-core (DESIGN.md C13 soundness: "CPU amount means the canonical milli
+	// value, which rounds sub-milli quantities up"), so 999500u counts as 1000m = 1 CPU.
 	if qos == "LSR" || qos == "LSE" {
-		cpu := c13PodRequest(newPod, corev1.ResourceCPU)
-		if cpu.Sign() <= 0 {
+		switch c13WholeCPU(newPod) {
+		case "zero":
 			broken = append(broken, "lsx-cpu-zero")
-		} else if !cpu.IsInt() {
+		case "sub-milli", "fractional":
 			broken = append(broken, "lsx-cpu-not-whole")
 		}
 	}
@@ -446,7 +493,8 @@ func c13GenPod(r *kit.Rand) (*corev1.Pod, c13PodInfo) {
 	if r.Pct(30) {
 		pod.Labels["app"] = kit.Pick(r, []string{"a", "b"})
 	}
-	beStylePod := pod.Labels[c13QoSKey] == "BE" && r.Pct(60)
+	_, hasQoSLabel := pod.Labels[c13QoSKey]
+	beStylePod := (pod.Labels[c13QoSKey] == "BE" && r.Pct(60)) || (!hasQoSLabel && r.Pct(10))
 	nc := []int{0, 1, 1, 1, 1, 1, 2, 2, 2, 2, 3, 3}[r.Intn(12)]
 	if r.Pct(97) && nc == 0 {
 		nc = 1
@@ -579,19 +627,9 @@ func c13CPUShape(pod *corev1.Pod) (shape string, subMilli, fractional bool) {
 			}
 		}
 	}
-	cpu := c13PodRequest(pod, corev1.ResourceCPU)
-	switch {
-	case cpu.Sign() == 0:
-		shape = "zero"
-	case cpu.IsInt():
-		shape = "whole"
-		if fractional {
-			shape = "whole-from-fractions"
-		}
-	case !new(big.Rat).Mul(cpu, new(big.Rat).SetInt64(1000)).IsInt():
-		shape = "sub-milli"
-	default:
-		shape = "fractional"
+	shape = c13WholeCPU(pod)
+	if shape == "whole" && fractional {
+		shape = "whole-from-fractions"
 	}
 	return
 }
@@ -750,6 +788,19 @@ func TestVerifC13Validating(t *testing.T) {
 		} else {
 			if len(brokenA) == 0 {
 				c.Count("converse_misses_v_denied_although_predicate_holds", 1)
+				switch {
+				case oldPod != nil && oldPod.Labels[c13SubKey] != newPod.Labels[c13SubKey]:
+					c.Count("converse_misses_v_cause_subpriority_label_changed", 1)
+				case batch && qos == "none":
+					c.Count("converse_misses_v_cause_batch_pod_be_only_by_default", 1)
+				case len(brokenB) > 0 || len(c13Protocol(decNew, decOld, false)) > 0:
+					c.Count("converse_misses_v_cause_other_reading", 1)
+				default:
+					c.Count("converse_misses_v_cause_unexplained", 1)
+					if testing.Verbose() {
+						fmt.Printf("C13 unexplained denial: %s\n  new=%s\n  old=%s\n", reason, newRaw, oldRaw)
+					}
+				}
 			} else {
 				c.Count("v_denied_and_predicate_broken", 1)
 				c.Count("v_denied_rule_"+brokenA[0], 1)
